@@ -57,7 +57,22 @@ def directed():
                         yield "%s ;; %s ;; run %s" % (cfg, " ;; ".join(ops), final)
 
 
+def directed_prefixed():
+    """a result consumed directly as Prefixed(result, 2): by a shuffle (rows are placed by both columns) and by a pipelined
+    operator (the result's tasks are reused, its operators — here a counting one — are not run again)"""
+    rows = "1:1 2:2 3:3 4:4 5:5 1:7 2:9 6:1 7:2 8:3 9:9 10:4 11:0"
+    for cfg in ("local", "bm M2 P4", "bm M1 P3"):
+        for nsh in (1, 2, 3):
+            first = "run N0=const %d %s ; N1=count N0 0 ; OUT N1" % (nsh, rows)
+            for second in ("N0=reshuffle2 R0 ; OUT N0", "N0=reshuffle2 R0 ; N1=map N0 inc ; OUT N1", "N0=map R0 pid ; OUT N0",
+                           "N0=map R0 pinc ; N1=reshuffle2 N0 ; OUT N1", "N0=mapm R0 pid ; N1=filter N0 vodd ; OUT N1"):
+                yield "%s ;; %s ;; run %s" % (cfg, first, second)
+                yield "%s ;; %s ;; run %s ;; discard 0 ;; scan 1" % (cfg, first, second)
+
+
 def gen(r, tier):
+    for c in directed_prefixed():
+        yield c
     alld = list(directed())
     if tier == "quick":
         alld = [c for c in alld if r.below(5) == 0]
